@@ -44,7 +44,24 @@ func Matches(pass *analysis.Pass, qs ...pattern.Pattern) iter.Seq2[ast.Node, *pa
 				continue
 			}
 
-			if len(q.RootCallSymbols) != 0 {
+			// Finding candidates via the call sites of the root symbols only
+			// works for callees. A symbol that names a type matches
+			// conversions, which the index doesn't list as calls.
+			useCallSites := len(q.RootCallSymbols) != 0
+			if useCallSites {
+				index := pass.ResultOf[typeindexanalyzer.Analyzer].(*typeindex.Index)
+				for _, isym := range q.RootCallSymbols {
+					if isym.Type != "" {
+						continue
+					}
+					if _, ok := index.Object(isym.Path, isym.Ident).(*types.TypeName); ok {
+						useCallSites = false
+						break
+					}
+				}
+			}
+
+			if useCallSites {
 				index := pass.ResultOf[typeindexanalyzer.Analyzer].(*typeindex.Index)
 				for _, isym := range q.RootCallSymbols {
 					var obj types.Object
